@@ -500,7 +500,68 @@ func stripScript(s []lev) []lev {
 
 var lTimes = map[string]time.Duration{}
 
-func lRunPath(c *lchain, p lpath, r *core.Result, verbose bool) (trace []string) {
+// lCheck runs one node life of one history; a violation whose fingerprint this worker has not seen yet
+// is shrunk (non-empty blocks of the history replaced by empty ones while the fingerprint stays) first.
+func lCheck(c *lchain, p lpath, r *core.Result) {
+	_, vs := lRunPath(c, p, r, false)
+	for _, v := range vs {
+		r.Add("violations_raw", 1)
+		known := false
+		for _, w := range r.Violations {
+			if w.Fingerprint == v.Fingerprint {
+				known = true
+			}
+		}
+		if known {
+			continue
+		}
+		v = lShrink(v)
+		r.Violate(v.Fingerprint, v.What, v.Replay)
+		r.Add("violations_raw", -1) // Violate counted it again
+	}
+}
+
+func lShrink(v core.Violation) core.Violation {
+	cs, ok := v.Replay.(lcase)
+	if !ok {
+		return v
+	}
+	for again := true; again; {
+		again = false
+		for i, l := range cs.Hist {
+			if l == "-" {
+				continue
+			}
+			h2 := append([]string{}, cs.Hist...)
+			h2[i] = "-"
+			if l2 := lBlockLetters(l); len(l2) > 1 {
+				h2[i] = strings.Join(l2[:len(l2)-1], ",") // drop the last transaction of the block first
+			}
+			c2, ref := lBuild(h2)
+			ref.Destroy()
+			_, vs := lRunPath(c2, cs.Path, core.NewResult(prop, "exploration"), false)
+			for _, w := range vs {
+				if w.Fingerprint == v.Fingerprint {
+					v, cs, again = w, w.Replay.(lcase), true
+				}
+			}
+			if again {
+				break
+			}
+		}
+	}
+	return v
+}
+
+func lRunPath(c *lchain, p lpath, r *core.Result, verbose bool) (trace []string, viols []core.Violation) {
+	violate := func(fp, what string, replay interface{}) {
+		for _, w := range viols {
+			if w.Fingerprint == fp {
+				return
+			}
+		}
+		viols = append(viols, core.Violation{Fingerprint: fp, What: what, Replay: replay})
+	}
 	say := func(f string, a ...interface{}) {
 		if verbose {
 			trace = append(trace, fmt.Sprintf(f, a...))
@@ -539,12 +600,11 @@ func lRunPath(c *lchain, p lpath, r *core.Result, verbose bool) (trace []string)
 			// is the extra variable needed? The same node life without restarts, siblings and twins differs from the
 			// reference node in the position of the stable pointer only: if it fails in the same way at the same
 			// block, the failure is reported there (under its own fingerprint), not here.
-			r2 := core.NewResult(prop, "exploration")
-			lRunPath(c, lpath{Kind: "stable-pointer", Script: stripScript(p.Script), Miner: p.Miner}, r2, false)
-			for _, v := range r2.Violations {
+			_, vs2 := lRunPath(c, lpath{Kind: "stable-pointer", Script: stripScript(p.Script), Miner: p.Miner}, core.NewResult(prop, "exploration"), false)
+			for _, v := range vs2 {
 				if strings.Contains(v.Fingerprint, "/"+what+"/"+diag+"/height="+lHeightKind(uint32(h))+"/") {
 					r.Add("L_failures_explained_by_the_stable_pointer_alone(reported there)", 1)
-					r.Violate(v.Fingerprint, v.What, v.Replay)
+					violate(v.Fingerprint, v.What, v.Replay)
 					say("   (the same failure occurs on a node that differs in the stable pointer only: reported as %s)", v.Fingerprint)
 					return
 				}
@@ -559,7 +619,7 @@ func lRunPath(c *lchain, p lpath, r *core.Result, verbose bool) (trace []string)
 			v = "stable-pointer(" + rel + ")"
 		}
 		fp := fmt.Sprintf("%s/local/%s/%s/height=%s/%s-node/var=%s", prop, what, diag, lHeightKind(uint32(h)), mode, v)
-		r.Violate(fp, fmt.Sprintf("%s (block %d = %s block, this node's stable block %d, restarted=%v); %s", text, h, lHeightKind(uint32(h)), s, restarted, cs.String()), cs)
+		violate(fp, fmt.Sprintf("%s (block %d = %s block, this node's stable block %d, restarted=%v); %s", text, h, lHeightKind(uint32(h)), s, restarted, cs.String()), cs)
 	}
 	for i, e := range p.Script {
 		if core.OutOfTime() {
@@ -595,14 +655,14 @@ func lRunPath(c *lchain, p lpath, r *core.Result, verbose bool) (trace []string)
 				continue
 			}
 			if err := n.insert(c.twin(e.H)); err == nil {
-				r.Violate(prop+"/local/corrupted-twin-accepted", "a block with a flipped version root was accepted; "+cs.String(), cs)
+				violate(prop+"/local/corrupted-twin-accepted", "a block with a flipped version root was accepted; "+cs.String(), cs)
 				return
 			}
 			r.Add("L_rejected_twins_executed", 1)
 		case "B":
 			h := e.H
 			if h > c.top() {
-				return // the reference miner produced no block here
+				return trace, viols // the reference miner produced no block here
 			}
 			b := c.blocks[h]
 			s := n.stableHeight()
@@ -666,5 +726,5 @@ func lRunPath(c *lchain, p lpath, r *core.Result, verbose bool) (trace []string)
 		}
 		_ = i
 	}
-	return trace
+	return trace, viols
 }
